@@ -37,6 +37,7 @@ pub struct Local {
     modes: [u64; 4],
     via_start: u64,
     err_after_err: u64,
+    renamed: u64,
 }
 
 const ALPHA: &[u8] = b" \t=\"'ab/";
@@ -60,6 +61,10 @@ fn real_items(content: &str, pos: usize, html: bool, checks: bool, via_start: bo
     let mut out = Vec::new();
     let len = content.len();
     loop {
+        // setting the switch again to the value it has is allowed at any time and changes nothing
+        if (len + out.len()) % 2 == 0 {
+            it.with_checks(checks);
+        }
         match it.next() {
             None => break,
             Some(Ok(a)) => {
@@ -95,6 +100,59 @@ fn real_items(content: &str, pos: usize, html: bool, checks: bool, via_start: bo
     Ok(out)
 }
 
+/// The attributes of a start tag do not depend on its name: after `set_name` (on the still borrowed
+/// event, as for an event that comes from a reader) the iteration gives the same keys, values and
+/// errors, with the positions moved by the difference of the name lengths.
+fn renamed_relation(content: &str, pos: usize, html: bool, checks: bool) -> Result<(), String> {
+    #[derive(Debug, PartialEq)]
+    enum It {
+        Ok(Vec<u8>, Vec<u8>),
+        Err(String),
+    }
+    fn collect(mut it: Attributes, shift: i64, limit: usize) -> Vec<It> {
+        let mut out = Vec::new();
+        while let Some(x) = it.next() {
+            out.push(match x {
+                Ok(a) => It::Ok(a.key.as_ref().to_vec(), a.value.as_ref().to_vec()),
+                Err(AttrError::ExpectedEq(p)) => It::Err(format!("ExpectedEq({})", p as i64 - shift)),
+                Err(AttrError::ExpectedValue(p)) => It::Err(format!("ExpectedValue({})", p as i64 - shift)),
+                Err(AttrError::UnquotedValue(p)) => It::Err(format!("UnquotedValue({})", p as i64 - shift)),
+                Err(AttrError::ExpectedQuote(p, q)) => It::Err(format!("ExpectedQuote({}, {})", p as i64 - shift, q)),
+                Err(AttrError::Duplicated(a, b)) => It::Err(format!("Duplicated({}, {})", a as i64 - shift, b as i64 - shift)),
+            });
+            if out.len() > limit {
+                break;
+            }
+        }
+        out
+    }
+    let plain = BytesStart::from_content(content, pos);
+    let mut it0 = if html { plain.html_attributes() } else { plain.attributes() };
+    it0.with_checks(checks);
+    let want = collect(it0, 0, content.len() + 2);
+    for new_name in ["n", "a-much-longer-name-than-before"] {
+        if new_name.len() == pos {
+            continue;
+        }
+        let mut renamed = BytesStart::from_content(content, pos);
+        renamed.set_name(new_name.as_bytes());
+        let mut it1 = if html { renamed.html_attributes() } else { renamed.attributes() };
+        it1.with_checks(checks);
+        let got = collect(it1, new_name.len() as i64 - pos as i64, content.len() + 2);
+        if got != want {
+            let i = (0..want.len().max(got.len())).find(|&i| want.get(i) != got.get(i)).unwrap_or(0);
+            return Err(format!(
+                "after set_name({:?}) on the start tag the attribute iteration differs at item {}: {:?} instead of {:?}",
+                new_name,
+                i,
+                got.get(i),
+                want.get(i)
+            ));
+        }
+    }
+    Ok(())
+}
+
 fn show_item(c: &[u8], i: &AItem) -> String {
     match i {
         AItem::Ok { key, value } => match value {
@@ -124,6 +182,10 @@ fn same(_c: &[u8], a: &AItem, b: &AItem) -> bool {
 pub fn check(content: &[u8], pos: usize, html: bool, checks: bool, via_start: bool, loc: &mut Local) -> Result<(), String> {
     let s = std::str::from_utf8(content).map_err(|_| "content is not UTF-8 (harness generator error)".to_string())?;
     let real = real_items(s, pos, html, checks, via_start)?;
+    if via_start && pos <= s.len() && s.is_char_boundary(pos) {
+        renamed_relation(s, pos, html, checks)?;
+        loc.renamed += 1;
+    }
     let model = parse(content, pos, html, checks, &mut loc.stats);
     let n = real.len().max(model.len());
     for i in 0..n {
@@ -313,6 +375,7 @@ fn flush(ctx: &mut Ctx, loc: &Local) {
         ctx.add(&format!("mode.{}", i), loc.modes[i]);
     }
     ctx.add("via_bytes_start", loc.via_start);
+    ctx.add("renamed_start_tag_relations", loc.renamed);
 }
 
 fn replay(case: &Value, _ctx: &mut Ctx) -> Option<String> {
